@@ -128,49 +128,50 @@ theorem search_reads_views_only (st : SearchState) (ft ft' : FT) (i : Nat) (h : 
 
 /-- **C06 for the closed model of the whole formatter** (`formatFull`: scanner, parser with its control flow,
     consolidators, ignore marks, token rules, wrapper stage with the search inside, reconstructor).  Let `s1` be
-    formatted to `out`.  If `s2` scans to the same token types and texts in another layout — every gap empty in both
-    or in neither, a blank line in both or in neither, identical bytes in front of tokens kept verbatim
-    (`SameLayout`), and the same line-break flags after the first `asm` keyword (`hflags`) — then `s2` is formatted to
-    the same `out`, byte for byte, provided that
-    * no token is a line comment sharing its line with code (`hni`; the token after such a comment is not given a
-      spacing by `TokenSpacing`, so the model's wrapper is handed the input's value; the wrapper then never uses it,
-      which is not proved — hence `_partial`), and
-    * in the run on `s1` every token is kept verbatim, or is the end-of-file token written by the end-of-file rule, or
-      lies in a line for which the wrapper found a solution in its first phase (`hall`, decidable, evaluated by the
-      driver on every case of the relayout stream).  It fails exactly where the wrapper reports "no solution" for a
-      line, which keeps that line's original layout: known finding F34.
-    No contract on parser or wrapper is assumed. -/
-theorem C06_format_full_partial (cfg : Config) (alnum : Bytes → Bool) (s1 s2 : Bytes) (raw1 raw2 : List RawTok)
+    formatted.  If `s2` scans to the same token types and texts in another layout — a blank line in front of a token in
+    both or in neither, identical bytes in front of tokens kept verbatim, `GapEqW` for the gaps (`SameLayout`), and the
+    same line-break flags after the first `asm` keyword (`hflags`) — then `s2` is formatted to the same bytes, provided
+    that in the run on `s1`
+    * every token is kept verbatim, or is the end-of-file token written by the end-of-file rule, or lies in a line for
+      which the wrapper found a solution in its first phase (`hall`; it fails exactly where the wrapper reports "no
+      solution" for a line, which keeps that line's original layout: known finding F34), and
+    * every token that follows a line comment sharing its line with code, and whose own spacing rule could keep the
+      input's spaces, starts a line in the result (`hfb`: `TokenSpacing` gives such a token no spacing, the wrapper must
+      break before it; the premise says it did).
+    Both are decidable and evaluated by the driver on every pair of the relayout stream.  No contract on parser or
+    wrapper is assumed. -/
+theorem C06_format_full (cfg : Config) (alnum : Bytes → Bool) (s1 s2 : Bytes) (raw1 raw2 : List RawTok)
     (po : ParserOut) (ftz : FT) (sols : List (Nat × Nat × Sol))
     (hl1 : lex s1 = some raw1) (hl2 : lex s2 = some raw2)
     (hpo : parseAndConsolidate raw1 = some po)
     (hflags : maskFlags false (raw1.map fun t => (t.kind, wsHasBreak t.ws)) =
       maskFlags false (raw2.map fun t => (t.kind, wsHasBreak t.ws)))
     (hsame : SameLayout po.kinds (preWrap (preO alnum po) raw1).1 raw1 raw2)
-    (hni : ∀ t ∈ retype raw1 po.kinds, t.kind ≠ .tComment .cInlineLine)
     (hw : wrapStageFull cfg (preWrap (preO alnum po) raw1).2.1 (preWrap (preO alnum po) raw1).2.2 = some (ftz, sols))
     (hall : allWritten (preWrap (preO alnum po) raw1).2.1
       (writtenBefore (preWrap (preO alnum po) raw1).2.1 (preWrap (preO alnum po) raw1).2.2)
-      (preWrap (preO alnum po) raw1).2.2.length sols = true) :
+      (preWrap (preO alnum po) raw1).2.2.length sols = true)
+    (hfb : freeBrokenB (preWrap (preO alnum po) raw1).2.2 ftz = true) :
     ∃ out, formatFull cfg alnum s1 = some out ∧ formatFull cfg alnum s2 = some out := by
-  obtain ⟨h1, h2⟩ := formatTokensFull_layout cfg alnum raw1 raw2 po ftz sols hpo hflags hsame hni hw hall
+  obtain ⟨h1, h2⟩ := formatTokensFull_layout cfg alnum raw1 raw2 po ftz sols hpo hflags hsame hw hall hfb
   exact ⟨_, by unfold formatFull; rw [hl1]; exact h1, by unfold formatFull; rw [hl2]; exact h2⟩
 
 /-- the wrapper stage alone, with the search inside: two states that agree up to the layout of the input (`RelW`)
     receive the same solutions, and once every token is written they are equal up to the leading whitespace of tokens
     that are not kept verbatim — which the reconstructor never emits -/
-theorem wrapper_stage_layout_independent (cfg : Config) (lines : List Line) (W0 : Nat → Bool) (ft ft' ftz : FT)
-    (sols : List (Nat × Nat × Sol)) (h : RelW (fun j => W0 j = true) ft ft')
-    (h1 : wrapStageFull cfg lines ft = some (ftz, sols)) (hall : allWritten lines W0 ft.length sols = true) :
+theorem wrapper_stage_layout_independent (cfg : Config) (lines : List Line) (F : Nat → Prop) (W0 : Nat → Bool)
+    (ft ft' ftz : FT) (sols : List (Nat × Nat × Sol)) (h : RelW F (fun j => W0 j = true) ft ft') (hF : FreeOk F ft)
+    (h1 : wrapStageFull cfg lines ft = some (ftz, sols)) (hall : allWritten lines W0 ft.length sols = true)
+    (hfree : ∀ j t, ftz[j]? = some t → F j → t.fmt.nl > 0) :
     ∃ ftz', wrapStageFull cfg lines ft' = some (ftz', sols) ∧
       reconstruct cfg.settings ftz = reconstruct cfg.settings ftz' := by
-  obtain ⟨ftz', hw, hr⟩ := wrapStageFull_layout cfg lines W0 ft ft' ftz sols h h1 hall
+  obtain ⟨ftz', hw, hr⟩ := wrapStageFull_layout cfg lines F W0 ft ft' ftz sols h hF h1 hall hfree
   exact ⟨ftz', hw, reconGo_relT _ _ _ _ hr⟩
 
 /-- **C06 for the closed model, decided per pair.**  `layoutPremisesB cfg alnum s1 s2` (Model/LayoutCheck.lean) is the
-    conjunction of the premises of `C06_format_full_partial` as one executable Boolean — same token types and texts,
-    `sameLayoutB` for the gaps, equal line-break flags after the first `asm` keyword, no line comment sharing its line
-    with code, every token written in the first wrapping phase.  Whenever it answers `true`, the two inputs are
+    conjunction of the premises of `C06_format_full` as one executable Boolean — same token types and texts,
+    `sameLayoutB` for the gaps, equal line-break flags after the first `asm` keyword, every token written in the first
+    wrapping phase, every free token behind a trailing line comment broken.  Whenever it answers `true`, the two inputs are
     formatted to the same bytes.  The driver evaluates it on every pair of the relayout stream (`full2`, field
     `info_c06`: how often the premises hold, and which one fails first otherwise) next to the comparison of both model
     outputs with the real formatter's. -/
